@@ -17,13 +17,14 @@ PID = "C12"
 DESIGN = {"quick": [("Knn.n3.cfg", 1), ("Knn.n4.cfg", 1), ("Knn.n3dir.cfg", 1)], "thorough": [("Knn.n3.cfg", 1), ("Knn.n4.cfg", 1), ("Knn.n5.cfg", 1), ("Knn.n3dir.cfg", 1), ("Knn.n4dir.cfg", 2)]}
 
 
-def arcs_trace(np, c, D, k, adj, radius, maxd, bound):
+def arcs_trace(np, c, D, k, adj, radius, maxd, bound, prev=0.0):
     n = len(D)
     rd = H.Ranker()
     rd.add_all(D.ravel())
     rd.add_all(radius)
     rd.add_all(maxd)
     rd.add(bound)
+    rd.add(prev)
     rd.add(0.00001)
     rd.add(1.0)
     if rd.unrankable:
@@ -37,6 +38,7 @@ def arcs_trace(np, c, D, k, adj, radius, maxd, bound):
         "radius": [rd(v) for v in radius],
         "maxd": [rd(v) for v in maxd],
         "bound": rd(bound),
+        "prev": rd(prev),
         "eps": rd(0.00001),
         "one": rd(1.0),
     }
@@ -76,7 +78,14 @@ def one_case(rep, scn, k, kp, heights, tm):
     site = "KNNSubgraph"
     det = scn.get("metric") if scn["mode"] == "metric" else "pre"
     rp = {"scenario": scn, "k": k, "kp": kp}
+    prev = 0.0
     try:
+        if scn.get("reuse"):
+            # the subgraph is re-used the way the models re-use it: arcs for another (larger) k first, destroyed, then the judged call.
+            # Everything per sample starts afresh; only the bound is, by the code's design, a running maximum.
+            sg.create_arcs(int(scn["reuse"]), *args)
+            sg.destroy_arcs()
+            prev = float(sg.density)
         maxd = sg.create_arcs(k, *args)
     except Exception as ex:
         rep.violation(site, "create_arcs_raised", type(ex).__name__, dict(rp, exception=str(ex)[:200]))
@@ -84,7 +93,7 @@ def one_case(rep, scn, k, kp, heights, tm):
     adj = [[int(x) for x in nd.adjacency] for nd in sg.nodes]
     radius = [float(nd.radius) for nd in sg.nodes]
     bound = float(sg.density)
-    tr = arcs_trace(np, c, D, k, adj, radius, [float(x) for x in maxd], bound)
+    tr = arcs_trace(np, c, D, k, adj, radius, [float(x) for x in maxd], bound, prev)
     if tr is None:
         rep.violation(site, "non_finite_radius_or_maximum", det, rp)
         return None
@@ -267,7 +276,7 @@ def scenarios(rep, tier, seed):
         met = rng.choice(mets)
         if kind == 2:
             met = "euclidean"
-        out.append(({"mode": "metric", "metric": met, "Z": Z.tolist(), "rebound": i % 3 == 1}, k, kp))
+        out.append(({"mode": "metric", "metric": met, "Z": Z.tolist(), "rebound": i % 3 == 1, "reuse": (k + 1 + i % 3 if i % 4 == 2 else 0)}, k, kp))
     return out
 
 
@@ -315,8 +324,8 @@ def run(tier, seed):
     if traces:
         rep.sample({"scenario": {kk: (v if kk not in ("Z", "D") else "...") for kk, v in traces[-1][0].items()}, "k": traces[-1][1], "arcs_trace": traces[-1][2]})
     judge_arcs(rep, traces)
-    rep.cov["rule"] = "fresh KNNSubgraph per case; all symmetric rank matrices n<=4 and all directed ones n=3 (pre-computed, permuted index arrays), random asymmetric matrices, non-symmetric identifiers, and float data (lattice, duplicates, tiny distances, densest-first/last orderings); k 1..6 incl. k>n-1; a third of the cases reset the density bound to the kp-th per-rank maximum between create_arcs and calculate_pdf (the k-range use of UnsupervisedOPF); heights {-1,0,.5,1,999,1000,2000}"
-    rep.assumptions = ["TLC for the discrete clauses", "numeric clauses: formula held in KnnTerms.tla, evaluated in float64 by lib/terms.py and compared under rtol 1e-9 x conditioning scale (sampling over the reals, not model checking)", "create_arcs is judged on fresh subgraphs (the density bound is not reset between calls on a reused subgraph)"]
+    rep.cov["rule"] = "fresh KNNSubgraph per case (a quarter re-used after create_arcs(larger k) + destroy_arcs); all symmetric rank matrices n<=4 and all directed ones n=3 (pre-computed, permuted index arrays), random asymmetric matrices, non-symmetric identifiers, and float data (lattice, duplicates, tiny distances, densest-first/last orderings); k 1..6 incl. k>n-1; a third of the cases reset the density bound to the kp-th per-rank maximum between create_arcs and calculate_pdf (the k-range use of UnsupervisedOPF); heights {-1,0,.5,1,999,1000,2000}"
+    rep.assumptions = ["TLC for the discrete clauses", "numeric clauses: formula held in KnnTerms.tla, evaluated in float64 by lib/terms.py and compared under rtol 1e-9 x conditioning scale (sampling over the reals, not model checking)", "the density bound is a running maximum across create_arcs calls on one subgraph (transcribed as such: KnnTrace's prev); a quarter of the float cases re-use the subgraph after arcs for a larger k were destroyed"]
     return rep.finish()
 
 
